@@ -14,7 +14,8 @@
    Verify) so that the generator can also tabulate "accumulator of length L" directly;
    the actions of the state machine apply them. *)
 EXTENDS Integers, Sequences, FiniteSets, TLC
-CONSTANTS MaxLen, MaxOps, HistOn
+CONSTANTS MaxLen, MaxOps, HistOn,
+          Kinds      \* how items may be added: subset of {"d" (AddData), "h" (AddHash)}
 VARIABLES st,       \* [n, roots, refs]  the accumulator object in memory
           disk,     \* [stored, pers]    the bucket: stored node/data hashes and the persisted roots record
           last,     \* [has, w]: witness returned by AddData if that was the most recent call
@@ -39,8 +40,9 @@ AddNode(rs, k, nd, w) ==
   IF k >= Len(rs) THEN [roots |-> Append(rs, nd), w |-> w]
   ELSE IF rs[k + 1] = None THEN [roots |-> [rs EXCEPT ![k + 1] = nd], w |-> w]
   ELSE AddNode([rs EXCEPT ![k + 1] = None], k + 1, Mk(rs[k + 1], nd), Append(w, W("L", rs[k + 1])))
-AddF(s) == LET r == AddNode(s.roots, 0, T(s.n, 0), <<>>) IN
-           [s |-> [s EXCEPT !.n = s.n + 1, !.roots = r.roots], w |-> r.w]
+\* kind "d": AddData (the accumulator owns the item data and stores it on Flush); kind "h": AddHash (only the hash is known)
+AddF(s, kind) == LET r == AddNode(s.roots, 0, T(s.n, 0), <<>>) IN
+                 [s |-> [s EXCEPT !.n = s.n + 1, !.roots = r.roots, !.kinds = Append(s.kinds, kind)], w |-> r.w]
 
 (* WitnessFor(idx): find the slot that holds item idx (empty slots hold nothing), then the path
    inside that perfect tree, leaf level first *)
@@ -80,17 +82,20 @@ Verify(s, ws, h) == /\ Len(ws) < Len(s.roots)
 (* Flush: every node below the roots goes to the bucket, then the roots record *)
 NodesUnder(t) == UNION {{T(t.lo + k * Pow2(j), j) : k \in 0..(Pow2(t.h - j) - 1)} : j \in 0..t.h}
 RootSet(s) == {s.roots[i] : i \in 1..Len(s.roots)} \ {None}
-FlushF(s, d) == [stored |-> d.stored \cup UNION {NodesUnder(r) : r \in {x \in RootSet(s) : x \notin s.refs}},
-                 pers |-> [n |-> s.n, roots |-> s.roots]]
+\* what Flush writes below a root: every branch, and the data of the items added with AddData (hashNode.Flush writes nothing)
+Written(s, r) == {x \in NodesUnder(r) : x.h >= 1 \/ s.kinds[x.lo + 1] = "d"}
+FlushF(s, d) == [stored |-> d.stored \cup UNION {Written(s, r) : r \in {x \in RootSet(s) : x \notin s.refs}},
+                 pers |-> [n |-> s.n, roots |-> s.roots, kinds |-> s.kinds]]
 (* Recover: a new accumulator object on the same bucket *)
-NoPers == [n |-> 0, roots |-> <<>>]
-RecoverF(d) == [n |-> d.pers.n, roots |-> d.pers.roots,
+NoPers == [n |-> 0, roots |-> <<>>, kinds |-> <<>>]
+RecoverF(d) == [n |-> d.pers.n, roots |-> d.pers.roots, kinds |-> d.pers.kinds,
                 refs |-> {d.pers.roots[i] : i \in 1..Len(d.pers.roots)} \ {None}]
 
-Empty == [n |-> 0, roots |-> <<>>, refs |-> {}]
+Empty == [n |-> 0, roots |-> <<>>, kinds |-> <<>>, refs |-> {}]
 EmptyDisk == [stored |-> {}, pers |-> NoPers]
 RECURSIVE Build(_)
-Build(L) == IF L = 0 THEN Empty ELSE AddF(Build(L - 1)).s      \* accumulator after L AddData calls
+KindOf(i) == IF i % 3 = 1 THEN "h" ELSE "d"                        \* the table mixes AddData and AddHash items
+Build(L) == IF L = 0 THEN Empty ELSE AddF(Build(L - 1), KindOf(L - 1)).s      \* accumulator after L Add calls
 
 -----------------------------------------------------------------------------
 (* history records *)
@@ -102,9 +107,9 @@ Log(r) == /\ nops' = IF MaxOps = 0 THEN 0 ELSE nops + 1
 NoLast == [has |-> FALSE, w |-> <<>>]
 Init == st = Empty /\ disk = EmptyDisk /\ last = NoLast /\ nops = 0 /\ hist = <<>>
 Can == MaxOps = 0 \/ nops < MaxOps
-Add == /\ st.n < MaxLen
-       /\ LET r == AddF(st) IN st' = r.s /\ last' = [has |-> TRUE, w |-> r.w]
-                               /\ Log([op |-> "add", i |-> st.n, w |-> WJ(r.w)])
+Add(kind) == /\ st.n < MaxLen
+       /\ LET r == AddF(st, kind) IN st' = r.s /\ last' = [has |-> TRUE, w |-> r.w]
+                               /\ Log([op |-> "add", i |-> st.n, kind |-> kind, w |-> WJ(r.w)])
        /\ UNCHANGED disk
 Flush == /\ disk' = FlushF(st, disk)
          /\ UNCHANGED <<st, last>>
@@ -122,19 +127,19 @@ Witness(i) == /\ UNCHANGED <<st, disk, last>>
               /\ LET r == WitnessFor(st, disk, i) IN
                  Log([op |-> "wit", i |-> i, w |-> WJ(r.w), ok |-> r.ok, tv |-> TamperVerdicts(st, r.w, i)])
 \* k AddData calls in a row (generator only: lets random walks reach long accumulators)
-RECURSIVE AddK(_, _)
-AddK(s, k) == IF k = 1 THEN AddF(s) ELSE AddK(AddF(s).s, k - 1)
-AddMany(k) == /\ st.n + k <= MaxLen
-              /\ LET r == AddK(st, k) IN st' = r.s /\ last' = [has |-> TRUE, w |-> r.w]
-                                         /\ Log([op |-> "addn", i |-> st.n, k |-> k, w |-> WJ(r.w)])
+RECURSIVE AddK(_, _, _)
+AddK(s, k, kind) == IF k = 1 THEN AddF(s, kind) ELSE AddK(AddF(s, kind).s, k - 1, kind)
+AddMany(k, kind) == /\ st.n + k <= MaxLen
+              /\ LET r == AddK(st, k, kind) IN st' = r.s /\ last' = [has |-> TRUE, w |-> r.w]
+                                         /\ Log([op |-> "addn", i |-> st.n, k |-> k, kind |-> kind, w |-> WJ(r.w)])
               /\ UNCHANGED disk
 WitSample(n) == {0, n - 1, n \div 2, (2 * n) \div 3} \cap 0..(n - 1)
 CheckAll == /\ UNCHANGED <<st, disk, last>>
             /\ Log([op |-> "all", i |-> 0, w |-> <<>>, wits |-> AllWits(st, disk)])
-Next == \/ Can /\ Add
+Next == \/ \E kind \in Kinds : Can /\ Add(kind)
         \/ Can /\ Flush
         \/ Can /\ Recover
-        \/ \E k \in {3, 7, 16, 33} : Can /\ HistOn /\ AddMany(k)
+        \/ \E k \in {3, 7, 16, 33}, kind \in Kinds : Can /\ HistOn /\ AddMany(k, kind)
         \/ \E i \in WitSample(st.n) : Can /\ HistOn /\ Witness(i)
         \/ Can /\ HistOn /\ st.n > 0 /\ CheckAll
 Spec == Init /\ [][Next]_vars
@@ -165,7 +170,7 @@ TamperRejected == \A i \in 0..(st.n - 1) :
   /\ \A i2 \in 0..(st.n - 1) : i2 # i => ~Verify(st, w, T(i2, 0))
   /\ (w # <<>> => ~Verify(st, SubSeq(w, 1, Len(w) - 1), T(i, 0)))
 \* what Recover relies on: everything below a recovered root is in the bucket
-RefsStored == \A r \in st.refs : NodesUnder(r) \subseteq disk.stored
+RefsStored == \A r \in st.refs : {x \in NodesUnder(r) : x.h >= 1} \subseteq disk.stored
 \* the persisted record can be recovered at any time and gives the same witnesses as at flush time
 RecoverSame == LET s2 == RecoverF(disk) IN
   \A i \in 0..(s2.n - 1) : LET r == WitnessFor(s2, disk, i) IN
